@@ -164,7 +164,11 @@ func (x *Exec) execInstr(fr *Frame, st *State, ins ssa.Instruction) {
 	case *ssa.Select:
 		x.selectInstr(fr, st, t)
 	case *ssa.Send:
-		x.ghostHook(fr, st, "send", t)
+		if fr.depth == 0 && fr.contract != nil && fr.contract.OnSend != nil {
+			if effs, ok := fr.contract.OnSend[chanVarName(t.Chan)]; ok {
+				x.applyGhostEffects(fr, st, effs, "true", map[string]specVal{"v": {term: x.val(fr, st, t.X), typ: t.X.Type()}})
+			}
+		}
 	case *ssa.Go:
 		x.goStmt(fr, st, t)
 	case *ssa.Defer:
@@ -298,14 +302,17 @@ func (x *Exec) unop(fr *Frame, st *State, t *ssa.UnOp) string {
 			return fmt.Sprintf("(- %s)", x.val(fr, st, t.X))
 		}
 	case token.ARROW:
-		x.ghostHook(fr, st, "recv", t)
 		if t.CommaOk {
-			v := x.freshOfType(st, "recv", t.Type().(*types.Tuple).At(0).Type())
+			vt := t.Type().(*types.Tuple).At(0).Type()
+			v := x.freshOfType(st, "recv", vt)
 			ok := x.vc.freshConst("recvok", "Bool")
 			fr.tuples[t] = []string{v, ok}
+			x.recvEffects(fr, st, t.X, v, vt, "true")
 			return ""
 		}
-		return x.freshOfType(st, "recv", t.Type())
+		v := x.freshOfType(st, "recv", t.Type())
+		x.recvEffects(fr, st, t.X, v, t.Type(), "true")
+		return v
 	}
 	return x.freshOfType(st, "unop", t.Type())
 }
@@ -757,17 +764,65 @@ func (x *Exec) selectInstr(fr *Frame, st *State, t *ssa.Select) {
 		tup = append(tup, x.freshOfType(st, "selrecv", tt.At(i).Type()))
 	}
 	fr.tuples[t] = tup
-	x.ghostHook(fr, st, "select", t)
+	// receive effects for the case that fires
+	ri := 2
+	for i, sstate := range t.States {
+		if sstate.Dir == types.RecvOnly {
+			if ri < len(tup) {
+				et := tt.At(ri).Type()
+				x.recvEffects(fr, st, sstate.Chan, tup[ri], et, fmt.Sprintf("(= %s %d)", idx, i))
+			}
+			ri++
+		}
+	}
 }
 
 func (x *Exec) ghostHook(fr *Frame, st *State, kind string, ins ssa.Instruction) {
-	// channel operations carry no state in the model
+	// channel operations carry no state in the model; see recvEffects / goEffects
+}
+
+// chanVarName: the source variable a channel operand was loaded from.
+func chanVarName(v ssa.Value) string {
+	if u, ok := v.(*ssa.UnOp); ok {
+		if a, ok := u.X.(*ssa.Alloc); ok {
+			return a.Comment
+		}
+		if fv, ok := u.X.(*ssa.FreeVar); ok {
+			return fv.Name()
+		}
+	}
+	return ""
+}
+
+// applyGhostEffects evaluates the effect expressions sequentially; cond guards the update.
+func (x *Exec) applyGhostEffects(fr *Frame, st *State, effs []*EffectSpec, cond string, bind map[string]specVal) {
+	for _, ef := range effs {
+		env := x.invEnv(fr, st)
+		for k, v := range bind {
+			env.names[k] = v
+		}
+		v := x.evalSpec(env, ef.Expr)
+		old := x.ghostGet(st, ef.Ghost)
+		st.ghost[ef.Ghost] = x.vc.define("ghost_"+ef.Ghost, x.ghostSort(ef.Ghost), ite(cond, v.term, old))
+	}
+}
+
+func (x *Exec) recvEffects(fr *Frame, st *State, ch ssa.Value, val string, valType types.Type, cond string) {
+	if fr.depth != 0 || fr.contract == nil || fr.contract.OnRecv == nil {
+		return
+	}
+	if effs, ok := fr.contract.OnRecv[chanVarName(ch)]; ok {
+		x.applyGhostEffects(fr, st, effs, cond, map[string]specVal{"v": {term: val, typ: valType}})
+	}
 }
 
 func (x *Exec) goStmt(fr *Frame, st *State, t *ssa.Go) {
 	x.vc.note("go statements: the spawned body is not interleaved; memory it may write is havocked at the spawn point")
 	keys := x.p.effects.callEffects(fr.fn, t)
 	x.havocKeys(st, keys)
+	if fr.depth == 0 && fr.contract != nil && len(fr.contract.OnGo) > 0 {
+		x.applyGhostEffects(fr, st, fr.contract.OnGo, "true", nil)
+	}
 	// captured heap cells written by the closure
 	if mc, ok := t.Call.Value.(*ssa.MakeClosure); ok {
 		_ = mc
